@@ -52,6 +52,12 @@ def generate(rng, tier, i):
         dest = rng.choice(owned + owned + [255, 255, 254, rng.randrange(0, 254), stacks[0]['cas'][0]['addr']])
         pgn = rng.choice(PGNS) if rng.random() < 0.7 else rng.getrandbits(18)
         reqs.append({'at_ms': 700 + 17 * ri + rng.randint(0, 3), 'pgn': pgn, 'dest': dest})
+    # an early window as well (while claim histories are still running: veto CAs not started, moved CAs waiting on their new
+    # address): the same CAs are asked again later in another state
+    for ri in range(rng.choice([0, 0, 1, 2, 3])):
+        dest = rng.choice(owned + [255, 255, 255])
+        pgn = rng.choice(PGNS) if rng.random() < 0.7 else rng.getrandbits(18)
+        reqs.append({'at_ms': 120 + 17 * ri + rng.randint(0, 3), 'pgn': pgn, 'dest': dest})
     scn['requests'] = sorted(reqs, key=lambda r: r['at_ms'])
     return scn
 
